@@ -4,7 +4,7 @@
 # <root>/.run/mutants/<id>.txt and a summary line per mutant on stdout.
 ROOT=$(cd "$(dirname "$0")/.." && pwd)
 mkdir -p $ROOT/.run/mutants
-IDS=${@:-$(ls /verif/seeded)}
+IDS=${@:-$(ls -d /verif/seeded/*/ | xargs -n1 basename)}
 for id in $IDS; do
   prop=${id%%_*}
   WT=/tmp/wt/m_$id
